@@ -282,8 +282,10 @@ def main() -> int:
         "wall_s": round(wall, 2),
         "violations": violations,
     }
-    os.makedirs(os.path.join(HERE, "evidence"), exist_ok=True)
-    with open(os.path.join(HERE, "evidence", f"{pid}.json"), "w") as f:
+    # VERIF_EVIDENCE_DIR: trial runs against a scratch tree (tools/try_seed_wt.sh) must not overwrite the real evidence
+    evdir = os.environ.get("VERIF_EVIDENCE_DIR") or os.path.join(HERE, "evidence")
+    os.makedirs(evdir, exist_ok=True)
+    with open(os.path.join(evdir, f"{pid}.json"), "w") as f:
         json.dump(ev, f, indent=1, sort_keys=True)
     print(f"{pid} tier={a.tier}: obligations={n_ob} discharged={n_dis} inconclusive={len(inconclusive)} violations={violations} paths={paths} z3_queries={queries} solver={solver_time:.1f}s wall={wall:.1f}s")
     return rc
